@@ -32,6 +32,8 @@ type seqStep struct {
 	Req *world.Req `json:"req,omitempty"`
 	// Wait asks for the next wall-clock second to start before the step (freshness runs).
 	Wait bool `json:"wait,omitempty"`
+	// N is the target size of a probe: the honest request computed from the OBSERVED stored state.
+	N int `json:"n,omitempty"`
 }
 
 type seqRun struct {
@@ -232,6 +234,21 @@ func execSeqRun(base *world.World, r seqRun, storeKind, embed string, seed int64
 	pre := takeSnapshot(w, st.p)
 	ctx := context.Background()
 	for k, s := range r.Steps {
+		if s.Op == "probe" {
+			st, ok := project(w, pre)[s.Log]
+			if !ok || (!st.None && (st.B != 0 || st.N > w.P.MaxSize || s.N < st.N)) {
+				events = append(events, skipEvent{E: "skip", Run: tag, K: k})
+				continue
+			}
+			rq := world.Req{Auth: "good", B: 0, N: s.N, Pf: world.Pf{K: "empty"}}
+			if !st.None {
+				rq.Old = st.N
+				if st.N != s.N && st.N != 0 {
+					rq.Pf = world.Pf{K: "right", B: 0, M: st.N, N: s.N}
+				}
+			}
+			s.Op, s.Req = "update", &rq
+		}
 		switch s.Op {
 		case "update":
 			if s.Wait {
